@@ -58,6 +58,11 @@ func checkSequence(c seqCase) error {
 					if want := ref.NSEC3Hash(name, salt, st.Iter); got != want {
 						return pbt.Errf("call %d of %d: HashName(%q, 1, %d, %q) = %q, RFC 5155 gives %q (the %d calls before it: %s)", i+1, len(c.Steps), st.Name, st.Iter, st.Salt, got, want, i, describe(c.Steps[:i]))
 					}
+				} else if st.Salt == "-" {
+					// the text String() prints for the empty salt: neither decoder of the library stores it in
+					// the Salt field (both store ""), packing takes it for the empty salt, HashName does not
+					// decode it. A program-built value: the call is made (it is an error path today), its
+					// result is not asserted either way (round 8, remark 1).
 				} else if nerr == nil && wm.Name(name).Valid() && (!sok || st.Alg != 1) && got != "" {
 					return pbt.Errf("call %d: HashName(%q, %d, %d, %q) = %q for an undecodable salt / unknown algorithm, want \"\"", i+1, st.Name, st.Alg, st.Iter, st.Salt, got)
 				}
